@@ -16,7 +16,8 @@ RULE = ("scenarios of 2-3 overlapping queries (same query twice; query and exten
         "memory+file); per (scenario, kind) all schedules with at most P preemptions (P=2 quick, 3 thorough) are enumerated "
         "depth-first up to a budget, branching only where the preempted operation's key is touched by another task. "
         "Evaluations = schedules executed; non-trivial = schedule with >= 1 preemption; distinct = distinct interleavings "
-        "(hash of the (task, operation, key) trace).")
+        "(hash of the (task, operation, key) trace). Beyond the depth-first budget, randomised schedules biased to switch at "
+        "commit points (renames, writes, stores) are added.")
 ASSUMPTIONS = ["between two yield points a task runs alone (one cache / file operation is atomic w.r.t. the others)",
                "operations on keys no other task touches commute (no branching there)"]
 SHARD_TIMEOUT = {"quick": 900, "thorough": 5400}
@@ -85,6 +86,8 @@ def run_scenario(env, kind, queries, scratch, bound, budget, viol, stats, only_s
     interleavings = set()
     touched = {}
 
+    policy_box = [None]
+
     def run_schedule(prefix):
         d = os.path.join(scratch, "run")
         shutil.rmtree(d, ignore_errors=True)
@@ -92,7 +95,7 @@ def run_scenario(env, kind, queries, scratch, bound, budget, viol, stats, only_s
         built = cachecfg.build(kind, d)
         sc = sched.SchedCache(built.cache, ref)
         set_cache(sc)
-        s = sched.Scheduler(len(queries), schedule=prefix)
+        s = sched.Scheduler(len(queries), schedule=prefix, policy=policy_box[0])
         ref[0] = s
         if file_backed:
             crash.install(d)
@@ -139,8 +142,34 @@ def run_scenario(env, kind, queries, scratch, bound, budget, viol, stats, only_s
     first = run_schedule(only_schedule or [])
     for (t, op, key) in first.trace:
         touched.setdefault(t, set()).add(key)
-    runs = [first] if only_schedule is not None else sched.explore(run_schedule, bound, budget, branch_ok)
-    for s in runs:
+    def all_runs():
+        if only_schedule is not None:
+            yield first
+            return
+        for s in sched.explore(run_schedule, bound, budget, branch_ok):
+            yield s
+        # randomised schedules biased to switch at commit points (renames, writes, stores): beyond the DFS budget
+        import random as _random
+
+        rnd = _random.Random("%s/%s/%s" % (kind, stats["scenario"], via))
+        critical = ("fs:rename", "fs:write", "fs:open_write", "fs:remove", "store", "store_metadata", "remove")
+
+        def policy(enabled, last, pend):
+            if last is None or last not in enabled:
+                return rnd.choice(list(enabled))
+            p = 0.5 if (pend is not None and pend[0] in critical) else 0.05
+            if len(enabled) > 1 and rnd.random() < p:
+                return rnd.choice([t for t in enabled if t != last])
+            return last
+
+        policy_box[0] = policy
+        try:
+            for _ in range(max(10, budget // 2) if file_backed else max(5, budget // 5)):
+                yield run_schedule([])
+        finally:
+            policy_box[0] = None
+
+    for s in all_runs():
         stats["evaluations"] += 1
         h = hashlib.sha1(repr(s.trace).encode()).hexdigest()[:12]
         interleavings.add(h)
